@@ -63,10 +63,10 @@ func WriteStep(w *bufio.Writer, st Step) {
 	for _, n := range st.Notes {
 		fmt.Fprintf(w, "# %s\n", n)
 	}
-	fmt.Fprintln(w, st.Pre)
+	fmt.Fprintln(w, st.PreS.String())
 	fmt.Fprintln(w, st.Op)
 	fmt.Fprintln(w, st.Res)
-	fmt.Fprintln(w, st.Post)
+	fmt.Fprintln(w, st.PostS.String())
 }
 
 // TestGen generates VERIF_TRACES seeded histories (seeds VERIF_SEED, VERIF_SEED+1, …) of VERIF_STEPS operations each
